@@ -1,0 +1,40 @@
+//! Verification hooks (compiled only with the `verif-hooks` cargo feature).
+//!
+//! Nothing in this module changes behaviour unless a test harness explicitly
+//! installs an override: the clock override is thread-local and `None` by
+//! default, the schedule-point callback is process-global and unset by default.
+
+use std::cell::Cell;
+use std::sync::atomic::{AtomicUsize, Ordering};
+
+thread_local! {
+    static CLOCK_MS: Cell<Option<u64>> = const { Cell::new(None) };
+}
+
+/// Set (or clear with `None`) the millisecond clock seen by this thread.
+pub fn set_clock_ms(v: Option<u64>) {
+    CLOCK_MS.with(|c| c.set(v));
+}
+
+/// Current override of the millisecond clock for this thread, if any.
+pub fn clock_ms() -> Option<u64> {
+    CLOCK_MS.with(|c| c.get())
+}
+
+static SCHED_CB: AtomicUsize = AtomicUsize::new(0);
+
+/// Install (or remove with `None`) a callback invoked at schedule points.
+pub fn set_sched_callback(cb: Option<fn(u32)>) {
+    SCHED_CB.store(cb.map(|f| f as usize).unwrap_or(0), Ordering::SeqCst);
+}
+
+/// A schedule point: calls the installed callback, if any.
+#[inline]
+pub fn sched_point(id: u32) {
+    let p = SCHED_CB.load(Ordering::Relaxed);
+    if p != 0 {
+        // SAFETY: the only writer stores either 0 or a valid `fn(u32)` pointer.
+        let f: fn(u32) = unsafe { std::mem::transmute::<usize, fn(u32)>(p) };
+        f(id);
+    }
+}
